@@ -43,7 +43,8 @@ def read_out(out_dir):
     return out
 
 
-def run_convert(spec=None, probes=None, label='', factor=1, extra_files=(), same_dir=False, fill=0):
+def run_convert(spec=None, probes=None, label='', factor=1, extra_files=(), same_dir=False, fill=0,
+                twice=False):
     """Build the source (a generated dataset, or a merge of generated probes), convert it, collect.
 
     Returns a dict: truth / truths, src_before, src_after, out (arrays by file name), exception,
@@ -97,6 +98,12 @@ def run_convert(spec=None, probes=None, label='', factor=1, extra_files=(), same
         res['stage'] = 'convert'
         try:
             c = EphysAlfCreator(m)
+            if twice:
+                # a first conversion with the same creator into another directory, with another label
+                # and factor: the second conversion must not inherit anything from it
+                r0 = c.convert(d / 'alf_first', label='first' if not label else '', ampfactor=3)
+                if r0 is not None:
+                    r0.close()
             ret = c.convert(out_dir, label=label, ampfactor=factor)
             if ret is not None:
                 res['returned'] = model_view(ret)
